@@ -259,9 +259,16 @@ type fixture struct {
 }
 
 func newFixture(unit string, hook Hook) (*fixture, error) {
+	return newFixtureSel(unit, func(int, string) Hook { return hook })
+}
+
+// newFixtureSel registers every service of the unit on one mux, the i-th service with the error hook hookFor(i, name)
+// (nil: no hook option at all) - servers of one package registered with different options.
+func newFixtureSel(unit string, hookFor func(i int, svc string) Hook) (*fixture, error) {
 	f := &fixture{mux: http.NewServeMux()}
 	f.wire = &Wire{Handler: f.mux, Keep: true}
-	for _, s := range Services(unit) {
+	for si, s := range Services(unit) {
+		hook := hookFor(si, s.Name)
 		if s.Register == nil {
 			continue
 		}
